@@ -124,12 +124,40 @@ fn vec_workload<T: Copy + Default + 'static>(bytes: &[u8], init_cap: Option<usiz
                     }
                     // the reserved room must be usable without moving
                     let (c, p) = (v.capacity(), v.as_ptr() as usize);
-                    for _ in 0..cnt.min(512) {
-                        v.push(T::default());
+                    // ... whichever way the elements arrive
+                    let fill = cnt.min(512);
+                    let how = (k / 12) % 8;
+                    let how_name = ["pushes", "elements through extend_from_slice_copy", "elements through extend_from_slices_copy (three slices)", "elements through extend_from_slice", "elements through extend(exact iterator)", "elements through resize", "elements through insert at the end", "elements through extend_from_slices_copy (one slice and two empty ones)"][how as usize];
+                    match how {
+                        0 => {
+                            for _ in 0..fill {
+                                v.push(T::default());
+                            }
+                        }
+                        1 => v.extend_from_slice_copy(&src[..fill]),
+                        2 => {
+                            let (a, rest) = src[..fill].split_at(fill / 3);
+                            let (b, d) = rest.split_at(rest.len() / 2);
+                            v.extend_from_slices_copy(&[a, b, d]);
+                        }
+                        3 => v.extend_from_slice(&src[..fill]),
+                        4 => v.extend(src[..fill].iter().cloned()),
+                        5 => v.resize(len0 + fill, T::default()),
+                        6 => {
+                            for _ in 0..fill {
+                                let at = v.len();
+                                v.insert(at, T::default());
+                            }
+                        }
+                        _ => v.extend_from_slices_copy(&[&src[..0], &src[..fill], &src[..0]]),
+                    }
+                    if v.len() != len0 + fill {
+                        let _u = ledger::enter_user();
+                        out.viol.push(format!("Vec<{size}-byte>: {fill} {how_name} on len {len0} left len {}", v.len()));
                     }
                     if v.as_ptr() as usize != p || v.capacity() != c {
                         let _u = ledger::enter_user();
-                        out.viol.push(format!("Vec<{size}-byte>: after reserve({cnt}) the next {} pushes moved the buffer (capacity {c} -> {})", cnt.min(512), v.capacity()));
+                        out.viol.push(format!("Vec<{size}-byte>: after reserve({cnt}) on len {len0} the next {fill} {how_name} moved the buffer (capacity {c} -> {})", v.capacity()));
                     }
                     within_reserved = true;
                     demanded = demanded.max(v.len());
